@@ -87,62 +87,39 @@ theorem C15_lambda_errors (cands : List Cand) (d : Nat) (spec : ArgSpec) :
         obtain ⟨c, hc⟩ := List.length_eq_one_iff.mp hl
         exact h2 c hc
 
-/-- `_node_matches_argspec` is exact on lambdas without positional-only parameters … -/
-theorem C15_nodeMatches_self (s : Sig) (h : s.posonly = []) : nodeMatches s (specOf s) = true := by
-  simp [nodeMatches, specOf, h]
+/-- `_node_matches_argspec` accepts the very lambda it is called for — for ALL lambdas, positional-only
+parameters included (since /repo e1be7e7; before that fix it rejected every lambda with a `/`). -/
+theorem C15_nodeMatches_self (s : Sig) : nodeMatches s (specOf s) = true := by
+  simp [nodeMatches, specOf]
 
-/-- … and rejects the very lambda it is called for as soon as it has one. -/
-theorem C15_nodeMatches_posonly (s : Sig) (h : s.posonly ≠ []) : nodeMatches s (specOf s) = false := by
-  have : ¬ s.args = s.posonly ++ s.args := by
-    intro he
-    have hl := congrArg List.length he
-    simp only [List.length_append] at hl
-    cases hp : s.posonly with
-    | nil => exact h hp
-    | cons a t => rw [hp] at hl; simp at hl
-  simp [nodeMatches, specOf, this]
-
-/-
-Full statement (what the property asks for):
-
-    theorem C15_lambda : tgt ∈ cands → spans d tgt → select cands d (specOf tgt.sig) = .ok n → n = tgt
-
-It is FALSE of the pinned code (see the counterexample below).  Proved: the `_partial` form under the
-hypothesis that the lambda being converted has no positional-only parameters or is the only candidate on its
-line.  The negation of that hypothesis is the class `lambda_posonly_signature_ambiguity`
-(`posonlyAmbiguity`, evaluated by the driver on every failing case).
--/
-
-/-- The lambda returned is the one that created the function object — never another one — provided the
-target has no positional-only parameters or is alone on its line.  Hypotheses `hmem`, `hspan` and the use of
-`specOf tgt.sig` are the CPython facts (the creating node is in the module tree, starts at `co_firstlineno`,
-and `getfullargspec` reports its parameters). -/
-theorem C15_lambda_partial (cands : List Cand) (d : Nat) (tgt n : Cand)
+/-- **The lambda returned is the one that created the function object — never another one.**  Full statement,
+no hypothesis on the signatures (it carried `posonlyAmbiguity = false` until /repo e1be7e7 fixed
+`_node_matches_argspec`).  `hmem`, `hspan` and the use of `specOf tgt.sig` are the CPython facts (the creating
+node is in the searched module tree, starts at `co_firstlineno`, and `getfullargspec` reports its parameters);
+the harness checks them on every case.  Otherwise the result is an explicit error (`C15_lambda_errors`). -/
+theorem C15_lambda (cands : List Cand) (d : Nat) (tgt n : Cand)
     (hmem : tgt ∈ cands) (hspan : spans d tgt = true)
-    (hyp : posonlyAmbiguity cands d tgt = false)
     (h : select cands d (specOf tgt.sig) = .ok n) : n = tgt := by
   have hin : tgt ∈ cands.filter (spans d) := List.mem_filter.mpr ⟨hmem, hspan⟩
   rcases C15_lambda_select_sound cands d _ n h with ⟨_, _, hsole | ⟨_, huniq⟩⟩
   · rw [hsole] at hin
     have : tgt = n := by simpa using hin
     exact this.symm
-  · -- several candidates: the hypothesis leaves only `posonly = []`
-    simp only [posonlyAmbiguity, Bool.and_eq_false_iff, decide_eq_false_iff_not, ne_eq] at hyp
-    rcases hyp with hpo | hlen
-    · have hpo' : tgt.sig.posonly = [] := by
-        cases hq : tgt.sig.posonly with
-        | nil => rfl
-        | cons a t => rw [hq] at hpo; simp at hpo
-      exact (huniq tgt hmem hspan (C15_nodeMatches_self _ hpo')).symm
-    · -- at most one spanning candidate: it is the target, and a sole candidate is returned as is
-      have hlen' : (cands.filter (spans d)).length ≤ 1 := by
-        simpa using hlen
-      match hcs : cands.filter (spans d), hlen', hin with
-      | [c], _, hin =>
-        have hc : tgt = c := by simpa using hin
-        rw [sel_one _ _ _ _ hcs] at h
-        cases h
-        exact hc.symm
+  · exact (huniq tgt hmem hspan (C15_nodeMatches_self _)).symm
+
+/-- and a lambda is never refused for lack of a match while it spans its own line: the only errors left are
+"no candidate spans the line" and a genuine tie of parameter names -/
+theorem C15_lambda_total (cands : List Cand) (d : Nat) (tgt : Cand)
+    (hmem : tgt ∈ cands) (hspan : spans d tgt = true) :
+    select cands d (specOf tgt.sig) = .ok tgt ∨ select cands d (specOf tgt.sig) = .ambiguous := by
+  cases hs : select cands d (specOf tgt.sig) with
+  | ok n => left; rw [C15_lambda cands d tgt n hmem hspan hs]
+  | ambiguous => right; rfl
+  | noMatch =>
+    have := ((C15_lambda_errors cands d (specOf tgt.sig)).1.mp hs)
+    have hin : tgt ∈ cands.filter (spans d) := List.mem_filter.mpr ⟨hmem, hspan⟩
+    rw [this] at hin
+    simp at hin
 
 /-- With the whole search: statements up to the first one starting after `def_line` are searched, so the
 creating node is among the candidates whenever its top-level statement starts at or before that line and
@@ -160,25 +137,24 @@ theorem C15_lambda_search (pre post : List Top) (t : Top) (d : Nat) (c : Cand)
     simp only [List.cons_append, searchNodes, hu, if_true, List.flatMap_cons, List.mem_append]
     exact Or.inr (ih (fun v hv => hpre v (by simp [hv])))
 
-/-! Non-vacuity and the counterexample (DESIGN §8: `(lambda x, /, y: x-y, lambda x, y: x+y)[0]`). -/
+/-! Non-vacuity.  DESIGN §8's `(lambda x, /, y: x-y, lambda x, y: x+y)[0]` used to be the counterexample (the
+OTHER lambda was returned); after e1be7e7 both nodes match the argspec `(x, y)` and the answer is the explicit
+ambiguity error — never a wrong lambda. -/
 
 private def lamPos : Cand := ⟨0, 1, 1, ⟨["x"], ["y"], none, [], none⟩⟩     -- lambda x, /, y: x - y
 private def lamPlain : Cand := ⟨1, 1, 1, ⟨[], ["x", "y"], none, [], none⟩⟩  -- lambda x, y: x + y
 private def lamOther : Cand := ⟨2, 1, 2, ⟨[], ["z"], some "a", ["k"], none⟩⟩ -- lambda z, *a, k: …
+private def lamPos2 : Cand := ⟨3, 1, 1, ⟨["u"], ["v"], none, [], none⟩⟩    -- lambda u, /, v: …
 
-/-- the pinned code returns the OTHER lambda -/
-example : select [lamPos, lamPlain] 1 (specOf lamPos.sig) = .ok lamPlain := by decide
-
-/-- hence the full statement is false -/
-example : ¬ (∀ (cands : List Cand) (d : Nat) (tgt n : Cand), tgt ∈ cands → spans d tgt = true →
-    select cands d (specOf tgt.sig) = .ok n → n = tgt) := by
-  intro h
-  have := h [lamPos, lamPlain] 1 lamPos lamPlain (by decide) (by decide) (by decide)
-  exact absurd this (by decide)
-
-example : posonlyAmbiguity [lamPos, lamPlain] 1 lamPos = true := by decide
-/-- the hypothesis of `C15_lambda_partial` is satisfiable with several candidates on the line -/
-example : posonlyAmbiguity [lamPlain, lamOther] 1 lamPlain = false ∧
+/-- the former counterexample: now an explicit error for either lambda of the pair … -/
+example : select [lamPos, lamPlain] 1 (specOf lamPos.sig) = .ambiguous ∧
+    select [lamPos, lamPlain] 1 (specOf lamPlain.sig) = .ambiguous := by decide
+/-- … and a positional-only lambda next to lambdas with other parameter names is recovered -/
+example : select [lamPos, lamOther, lamPos2] 1 (specOf lamPos.sig) = .ok lamPos ∧
+    select [lamPos, lamOther, lamPos2] 1 (specOf lamPos2.sig) = .ok lamPos2 := by decide
+example : nodeMatches lamPos.sig (specOf lamPos.sig) = true := by decide
+/-- the hypotheses of `C15_lambda` with several candidates on the line -/
+example : lamPlain ∈ [lamPlain, lamOther] ∧ spans 1 lamPlain = true ∧
     select [lamPlain, lamOther] 1 (specOf lamPlain.sig) = .ok lamPlain := by decide
 /-- identical signatures: an explicit error, not a guess -/
 example : select [lamPlain, { lamPlain with id := 7 }] 1 (specOf lamPlain.sig) = .ambiguous := by decide
